@@ -150,6 +150,9 @@ def c03(run, model):
 
 def c05(run, model):
     _mol_run(run, model, {"K7", "C05"}, 0, 0, exhaustive=(4, 5), extra_stream=_near_and_big)
+    # the reader side of the quantifier ("molecules the readers ... can produce"): molfile texts, well-formed and not
+    import text_checks
+    text_checks.c05_reader_stream(run, model)
 
 
 def label_variants(am, rng):
@@ -248,7 +251,7 @@ SPECS = {
                       "tucan_fixed_point (with H2) about the model and the reference reader; the ANTLR parser is tied to the reference reader by K8 only.",
                 note=NOTE_MODEL, design_ref="DESIGN.md 4.3",
                 rule="same stream; parse(tucan(G)) compared with G by an independent matcher, counts, second-generation string; non-trivial as for C13"),
-    "C05": dict(fn=c05, level="proof", components=["K7"], assumptions=MOL_ASSUME,
+    "C05": dict(fn=c05, level="proof", components=["K7", "K1", "K2"], assumptions=MOL_ASSUME,
                 claim="Theorem tucan_in_grammar: every emitted string is the spelling of a sentence of the inductive transcription of the published EBNF (tables regenerated from tucan.ebnf/.g4) "
                       "and lexes back to the same tokens; layout facts (Hill order, counts, a<b, ascending tuples and blocks, positive values) follow from ast_of / ser_ready. "
                       "The falsifier judges every emitted string with an independent regex/counting validator written from the EBNF text.",
@@ -347,6 +350,13 @@ def replay(run, model, rp):
     if not hit:
         print("replay file names no failing input: ", json.dumps(rp.get("broken")))
         return 1
+    if (hit.get("case") or {}).get("kind") == "C05-text":
+        import text_checks
+        if text_checks.replay_text(run, model, hit):
+            print("VIOLATION property=%s replay=%s" % (rp["property"], "(replayed)"))
+            return 1
+        print("not reproduced")
+        return 0
     am = AM.from_json(hit["molecule"])
     prop = rp["property"]
     opts = {prop} | {"K5"}
